@@ -460,6 +460,8 @@ def _find_uncached(interp, s, sub, start, reverse, raise_on_missing):
             if len(ds) > n_before and not (z3.is_string_value(pre) and pre.as_string() == ''):
                 _decomps(interp, t).append(_dec(interp, _flat_concat(pre) + list(ds[-1]), ds[-1]))
         return wrap(_s(r) + z3.Length(pre)) if not (isinstance(r, int) and r == -1) else -1
+    from . import charclass
+    charclass.contains_link_pattern(interp, t, u)
     if not st.fork(wrap(z3.Contains(t, u))):
         if raise_on_missing:
             raise _pyraise(ValueError('substring not found'))
